@@ -9,6 +9,50 @@ class Abs:
     def reset(s): s.apps = {}; s.cons = []; s.n = 0
     def app(s, op, arg):
         arg = z3.simplify(arg)
+        if op == 'inv':
+            if z3.is_rational_value(arg) and arg.as_fraction() != 0:
+                return z3.RealVal(str(1/arg.as_fraction()))
+            if z3.is_mul(arg):
+                r = z3.RealVal(1)
+                for c in arg.children(): r = r * s.app('inv', c)
+                return r
+            if z3.is_app(arg) and arg.decl().kind()==z3.Z3_OP_UMINUS:
+                return -s.app('inv', arg.arg(0))
+            if z3.is_app(arg) and arg.decl().kind()==z3.Z3_OP_POWER and z3.is_rational_value(arg.arg(1)):
+                n=arg.arg(1).as_fraction()
+                if n.denominator==1 and n>0:
+                    r=z3.RealVal(1)
+                    for _ in range(int(n)): r=r*s.app('inv', arg.arg(0))
+                    return r
+            if z3.is_add(arg):
+                arg2 = z3.simplify(arg, som=True, mul_to_power=False)
+                if z3.is_add(arg2):
+                    terms=[]
+                    for tm in arg2.children():
+                        fac={}
+                        for c in (tm.children() if z3.is_mul(tm) else [tm]):
+                            if z3.is_rational_value(c): continue
+                            k=c.get_id(); fac[k]=(c, fac.get(k,(c,0))[1]+1)
+                        terms.append(fac)
+                    common=dict(terms[0])
+                    for f in terms[1:]:
+                        common={k:(e,min(p,f[k][1])) for k,(e,p) in common.items() if k in f}
+                    if common:
+                        m=z3.RealVal(1)
+                        for k,(e,p) in common.items():
+                            for _ in range(p): m=m*e
+                        # rest = arg2 / m : rebuild summands without common factors
+                        rest=z3.RealVal(0)
+                        for tm,f in zip(arg2.children(), terms):
+                            coeff=z3.RealVal(1); 
+                            for c in (tm.children() if z3.is_mul(tm) else [tm]):
+                                if z3.is_rational_value(c): coeff=coeff*c
+                            t2=coeff
+                            for k,(e,p) in f.items():
+                                for _ in range(p-common.get(k,(e,0))[1]): t2=t2*e
+                            rest=rest+t2
+                        return s.app('inv', m) * s.app('inv', z3.simplify(rest))
+                    arg = arg2
         for (a, r) in s.apps.setdefault(op, []):
             if a.eq(arg): return r
         s.n += 1
@@ -38,6 +82,7 @@ class SR:
     __radd__ = __add__
     def __sub__(s,o):
         if isinstance(o, np.ndarray) or not isinstance(o, (SR, SC, int, float, complex, np.number, Fraction)): return NotImplemented
+        if isinstance(o, (SC, complex)): return SC.lift(s) - o
         return SR(s.t - SR.lift(o).t)
     def __rsub__(s,o):
         if isinstance(o, np.ndarray) or not isinstance(o, (SR, SC, int, float, complex, np.number, Fraction)): return NotImplemented
@@ -49,6 +94,7 @@ class SR:
     __rmul__ = __mul__
     def __truediv__(s,o):
         if isinstance(o, np.ndarray) or not isinstance(o, (SR, SC, int, float, complex, np.number, Fraction)): return NotImplemented
+        if isinstance(o, (SC, complex)): return SC.lift(s)/o
         return SR(s.t * ABS.app('inv', SR.lift(o).t))
     def __rtruediv__(s,o):
         if isinstance(o, np.ndarray) or not isinstance(o, (SR, SC, int, float, complex, np.number, Fraction)): return NotImplemented
@@ -91,6 +137,13 @@ class SC:
         o=SC.lift(o); return SC(s.re*o.re - s.im*o.im, s.re*o.im + s.im*o.re)
     __rmul__=__mul__
     def __neg__(s): return SC(-s.re, -s.im)
+    def inv(s):
+        d = s.re*s.re + s.im*s.im
+        return SC(s.re/d, -(s.im/d))
+    def __truediv__(s,o):
+        if isinstance(o, np.ndarray): return NotImplemented
+        return s*SC.lift(o).inv()
+    def __rtruediv__(s,o): return SC.lift(o)*s.inv()
     def conjugate(s): return SC(s.re, -s.im)
     @property
     def real(s): return s.re
@@ -109,6 +162,9 @@ def lift_arr(a):
     a = np.asarray(a); out = np.empty(a.shape, dtype=object)
     for idx in np.ndindex(*a.shape): out[idx] = SR.lift(a[idx])
     return out.view(SA)
+def TC(x):
+    x=SC.lift(x) if not isinstance(x,SC) else x
+    return (x.re.t, x.im.t)
 def T(x): return x.t if isinstance(x, SR) else z3.RealVal(str(Fraction(x)) if isinstance(x,float) else x)
 
 class LinalgShim:
